@@ -87,7 +87,13 @@ def check(case):
     ctx = f"--- overrides {env}\n--- program:\n{text}"
     np.random.seed(case.get("np_seed", 1))
     with step_budget(2000 * (size + len(V) + 50) + 10**6):
-        st_, res = guard(run_jaqal_circuit, c, what="run_jaqal_circuit")
+        if len(text) % 2:
+            # one backend object for all the cases of the process: nothing may pile up in it
+            from .c03 import shared_backend
+
+            st_, res = guard(run_jaqal_circuit, c, backend=shared_backend(), what="run_jaqal_circuit(backend=shared)")
+        else:
+            st_, res = guard(run_jaqal_circuit, c, what="run_jaqal_circuit")
     if st_ == "err":
         raise Violation("rejected-valid-program", f"run: {res}\n{ctx}", where="run:" + _msgkey(res))
     _check_result(res, V, nsub, n, visits, ctx, "emulator")
